@@ -236,6 +236,11 @@ func (g *Syn) Block(d int) string {
 		n = g.R.Intn(2)
 	}
 	var b strings.Builder
+	if g.R.Intn(8) == 0 {
+		// blocks made of separators only: their statement list must be empty, whatever was parsed before
+		g.note("block:separators-only")
+		return g.pick([]string{"", " ", ";", " ; ", "\n;\n", ";;", "\n\n"})
+	}
 	b.WriteString("\n")
 	for i := 0; i < n; i++ {
 		b.WriteString(g.Stmt(d))
